@@ -54,6 +54,9 @@ CLAIMED = {
  'C23': dict(
     text='Partial claim (temperature scales), bounded symbolic model checking through the whole real pipeline: the real module physics::temperature_conversion is imported into a real session; for a symbolic double x with |x| <= 10^6 the programs celsius(from_celsius(x)) and from_celsius(celsius(x kelvin)), also with the temperature written in millikelvin (thorough tier: the Fahrenheit pair and further prefixes as well) are interpreted, and the solver proves the round trip restores x within 1e-9 (1e-8) on every feasible path. This is a floating-point tolerance claim that is decidable because the Celsius pair only adds and subtracts a constant.',
     design_ref='DESIGN.md §0a / §4 C23', technique='symbolic execution of LLVM IR (whole interpreter pipeline) + SMT (z3 QF_FP), native replay'),
+ 'C16': dict(
+    text='Partial claim (two-parameter functions whose bodies are operator expressions), bounded symbolic model checking through the whole real pipeline: the body\'s token kinds are symbolic (37-kind expression alphabet; every sequence up to the stated length that the real parser accepts, and longer templates — sums, products, quotients, integer powers, comparisons, conditionals, parentheses — with symbolic operator positions); `fn g(a, b) = body` is interpreted without annotations in a session with two base dimensions; if the checker accepts it, the statement it echoes (the inferred signature spelled out, generic parameters with their Dim bounds) is interpreted as a re-declaration and must be accepted and echo the same signature, and each of five call sites (scalars, one unit, the same unit twice, two units, a square) must be accepted or rejected identically, with the same type and the bit-identical value, before and after. Structure is enumerated by the solver exploring the parser; nothing here is a floating-point claim.',
+    design_ref='DESIGN.md §0a C16', technique='symbolic execution of LLVM IR (whole interpreter pipeline) over symbolic token kinds + SMT (z3 QF_BV), replay-mode path exploration, native replay'),
  'C02': dict(
     text='Partial claim (the constraint solver), bounded symbolic model checking of the compiled code: ConstraintSet::solve (Constraint::try_satisfy, DType::from_factors / divide / multiply / power with their canonicalisation, Substitution::apply) runs on dimension equations over two type variables and two base dimensions whose exponents are symbolic integers in [-3, 3]; on every feasible path the solver must accept exactly the systems that are consistent over the rationals (decided by an integer determinant / minor oracle), and the returned substitution must make both sides of every equation the same dimension. Accept/reject of whole programs and constraint generation are outside the claim.',
     design_ref='DESIGN.md §0a / §4 C02', technique='symbolic execution of LLVM IR + SMT (z3 QF_BV), replay-mode path exploration, linear-algebra oracle'),
@@ -63,7 +66,6 @@ NOT_APPLICABLE = {
  'C06': 'ranges over histories of source texts; no symbolic value reaches the rollback mechanism and symbolic source text is out of reach (hash-map keyword lookup, float parsing)',
  'C07': 'ranges over sequences of texts and split points; nothing value-dependent for a solver to decide',
  'C13': 'finite alias x prefix table: exhaustive enumeration is the tool; a solver would need symbolic identifiers through IndexMap hashing or a hand model of PrefixParser::parse instead of the code',
- 'C16': 'ranges over function bodies (program structure); the inference / printing mechanism does not branch on any value that can be made symbolic',
  'C17': 'finite set of module orders with no symbolic value; exhaustive enumeration is the tool',
  'C19': 'date-time arithmetic lives in jiff (calendar and time-zone tables) behind VM opcodes that need a DateTime on the stack; no kernel was built, so nothing is claimed',
  'C22': 'process-level I/O and exit status of the CLI binary; behind I/O and whole-program execution',
